@@ -9,7 +9,7 @@ use crate::progcheck::{self, fnv, Judge, JR};
 use crate::realrun::{self, CompileOutcome, RunCfg};
 use cvx_core::engine::{Check, CheckInfo, ChunkResult, Tier, Violation};
 use cvx_core::gen_basic::{CfgLite, Family};
-use cvx_core::gen_c04::{FCyclic, FExhaust, FKinds, FNames, FShape};
+use cvx_core::gen_c04::{FCyclic, FExhaust, FKinds, FNames, FOddKeys, FShape};
 use cvx_core::ir::Module;
 use cvx_core::refsem;
 use cvx_core::region::{self, RegionOpts};
@@ -114,6 +114,7 @@ fn families(tier: Tier) -> &'static Vec<Box<dyn Family>> {
                 Box::new(FKinds),
                 Box::new(FExhaust { thorough: false }),
                 Box::new(FCyclic),
+                Box::new(FOddKeys),
                 Box::new(FExpr::new()),
                 Box::new(FStmt::new(1)),
                 Box::new(FStmt::new(2)),
@@ -130,6 +131,7 @@ fn families(tier: Tier) -> &'static Vec<Box<dyn Family>> {
                 Box::new(FKinds),
                 Box::new(FExhaust { thorough: true }),
                 Box::new(FCyclic),
+                Box::new(FOddKeys),
                 Box::new(FExpr::new()),
                 Box::new(FStmt::new(1)),
                 Box::new(FStmt::new(2)),
